@@ -1,3 +1,4 @@
+import RedoModel.Props.C09f
 import RedoModel.Props.C09e
 import RedoModel.Props.C09d
 import RedoModel.TokLoop
